@@ -50,7 +50,7 @@ PROPS: dict[str, dict[str, Any]] = {
         "assumptions": ["bounded, not proved: SQLAlchemy/sqlite statements are outside the verifier's reach; the oracle reads the store back with plain SQL"],
     },
     "C10": {
-        "level": "exploration",
+        "level": "proof",
         "sidecars": ["contracts/c10.py"],
         "bounded": [{"script": "bounded/store_harness.py", "args": ["--mode", "c10"]}],
         "rule": "bounded stand-in, exhaustive in its bound: every stream of length <= 4 (thorough 5) over a pool of 7 spans (two traces; one id occurring "
